@@ -50,6 +50,19 @@ fn cbr_rejects_bad_p_f32() {
     kani::cover!(true, "confidence_band_radius returned for a rejected probability");
 }
 
+/// the `From<ModelError>` impl that thiserror's `#[from]` derives for `statistics::Error` wraps its argument in
+/// `ModelEvaluation` (macro-generated code the Verus unit has to assume): loop-free, complete over the payload
+#[kani::proof]
+fn stats_error_from_model_error() {
+    use crate::model::errors::ModelError;
+    let index: usize = kani::any();
+    let e: super::Error<ModelError> = ModelError::DerivativeIndexOutOfBounds { index }.into();
+    assert!(matches!(e, super::Error::ModelEvaluation(ModelError::DerivativeIndexOutOfBounds { index: i }) if i == index));
+    let (expected, actual): (usize, usize) = (kani::any(), kani::any());
+    let e: super::Error<ModelError> = ModelError::IncorrectParameterCount { expected, actual }.into();
+    assert!(matches!(e, super::Error::ModelEvaluation(ModelError::IncorrectParameterCount { expected: a, actual: b }) if a == expected && b == actual));
+}
+
 /// bounded validation of `concat_colwise`: [left | right] column placement (2 x 2 and 2 x 1)
 #[kani::proof]
 #[kani::unwind(6)]
